@@ -22,7 +22,12 @@ type verifBTDEnv struct {
 	c       *chanPacketConn
 	conn    *net.UDPConn
 	clients [3]*net.UDPConn
+	sessions []*packetSession
 }
+
+type verifObs struct{}
+
+func (verifObs) Observe(float64) {}
 
 // verifNewBTDEnv listens on a loopback socket with the control-message option of the
 // real listener, but without SO_BINDTODEVICE (no privileges needed).
@@ -58,6 +63,7 @@ func verifNewBTDEnv() *verifBTDEnv {
 		bodyPool:      syncutil.NewSlicePool[byte](512),
 		oobPool:       syncutil.NewSlicePool[byte](netext.IPDstOOBSize),
 		writeRequests: writeRequests,
+		writeDurationHist: verifObs{},
 		done:          make(chan unit),
 		ifaceName:     "lo",
 		port:          uint16(srvAddr.Port),
@@ -95,5 +101,13 @@ func (e *verifBTDEnv) consume(buf []byte) (n, port int, err error) {
 	if err != nil {
 		return 0, 0, err
 	}
+	e.sessions = append(e.sessions, sess.(*packetSession))
 	return n, sess.RemoteAddr().(*net.UDPAddr).Port, nil
+}
+
+// respond answers the i-th consumed session through the listener's write path.
+func (e *verifBTDEnv) respond(i int) error {
+	resp := &packetConnWriteResp{}
+	e.l.writeToUDPConn(e.conn, &packetConnWriteReq{session: e.sessions[i], body: []byte{0, 0, 0x80, 0, 0, 0, 0, 0, 0, 0, 0, 0}}, resp)
+	return resp.err
 }
